@@ -125,9 +125,39 @@ Fixpoint no_early_recycle_aux (in_flight : bool) (last : option outcome) (tr : l
 
 Definition no_early_recycle (tr : list lifeev) : bool := no_early_recycle_aux false None tr.
 
+(** * The pooled batch buffer of the cluster client
+
+    clusterClient.DoMulti / DoMultiCache group the commands per node into a pooled [*retry] buffer
+    (cluster.go: retryp / retrycachep); doretry hands [re.commands] — the buffer's array itself — to
+    cc.DoMulti, so the pipe's ring slot points INTO the buffer until the batch has been written.  After
+    doresultfn / resultcachefn the buffer goes back to the pool only when [clean]: every member's result
+    satisfies resp.NonRedisError() == nil, i.e. every member got a reply (value, Redis error or redirect).
+    One buffer serves one cc.DoMulti; members to be re-sent are put into other buffers. *)
+
+Definition member_replied (o : outcome) : bool := match o with OutReply | OutRedirect => true | _ => false end.
+
+(** [clean] of doresultfn / resultcachefn *)
+Definition batch_clean (members : list outcome) : bool := forallb member_replied members.
+
+Definition run_batch (members : list outcome) : list lifeev :=
+  map LAttempt members ++ (if batch_clean members then [LRecycle; LReturn] else [LReturn]).
+
+(** every Recycle of a batch buffer comes after attempts that ALL ended with a reply, none of which left the buffer
+    with a pipe that may still read it *)
+Fixpoint batch_no_early_aux (in_flight all_replied : bool) (tr : list lifeev) : bool :=
+  match tr with
+  | [] => true
+  | LAttempt o :: r => batch_no_early_aux (in_flight || leaves_in_flight o) (all_replied && member_replied o) r
+  | LReturn :: r => batch_no_early_aux in_flight all_replied r
+  | LRecycle :: r => negb in_flight && all_replied && batch_no_early_aux in_flight all_replied r
+  end.
+
+Definition batch_no_early_recycle (tr : list lifeev) : bool := batch_no_early_aux false true tr.
+
 (** ---- correspondence cases (printed by harness/cmd/obs_recycle) ---- *)
 Inductive case :=
-| CLife (k : kind) (pinned : bool) (evs : list event) (impl_recycled : bool).
+| CLife (k : kind) (pinned : bool) (evs : list event) (impl_recycled : bool)
+| CBatch (members : list outcome) (impl_recycled : bool).
 
 Definition check_case (c : case) : bool :=
   match c with
@@ -136,4 +166,5 @@ Definition check_case (c : case) : bool :=
     | Some tr => Bool.eqb (recycled tr) r
     | None => false
     end
+  | CBatch members r => Bool.eqb (recycled (run_batch members)) r
   end.
